@@ -113,3 +113,24 @@ package kms
 //@   ensures [C17:key-sealed-under-the-generated-data-key] retis(generateDataKey, 1, 1, nil) ==> ncalls(Encrypt) == 1 && arg(Encrypt, 1, data) == keyBytes && arg(Encrypt, 1, key) == ret(generateDataKey, 1, 0).Plaintext
 //@   ensures [C17:envelope-carries-the-sealed-key] retis(Encrypt, 1, 1, nil) ==> ncalls(Marshal) == 1 && istype(arg(Marshal, 1, v), envelope) && dyn(arg(Marshal, 1, v), envelope).EncryptedKey == ret(Encrypt, 1, 0)
 //@   ensures [C17:wrap-fails-only-if-no-region-generates-a-key-or-sealing-fails] err != nil ==> !retis(generateDataKey, 1, 1, nil) || !retis(Encrypt, 1, 1, nil) || !retis(Marshal, 1, 1, nil)
+
+// ---- the builder puts the preferred region's client first (C17: unwrapping is attempted preferred-region-first;
+// DecryptKey and generateDataKey are proved to go through the clients in list order) ----
+// assumed: loading the SDK configuration, copying it and creating a client touch nothing of the builder or its clients
+//@ extern config.LoadDefaultConfig
+//@   names ctx, optFns
+//@ extern aws.(Config).Copy
+//@   names c
+//@   pure
+//@ funcspec kmsFactory
+//@   names cfg
+//@ funcfield (Builder).factory kmsFactory
+
+//@ func (*Builder).Build
+//@   names b
+//@   facet C17
+//@   opt no-frame
+//@   requires b != nil
+//@   loop 1 invariant [C17:preferred-region-stays-first] (visited(b.preferredRegion) ==> len(clients) >= 1 && clients[0].Region == b.preferredRegion) && (forall j int :: 0 <= j && j < len(clients) ==> visited(clients[j].Region) && clients[j].Region in b.arnMap && clients[j].MasterKeyARN == b.arnMap[clients[j].Region]) && len(clients) == itercount()
+//@   ensures [C17:preferred-region-is-first-in-the-client-list] err == nil && b.preferredRegion in b.arnMap ==> len(result.clients) >= 1 && result.clients[0].Region == b.preferredRegion
+//@   ensures [C17:as-many-clients-as-configured-regions] err == nil ==> len(result.clients) == len(b.arnMap)
